@@ -16,7 +16,7 @@ import vf
 LEVEL = "exploration"
 
 
-def _known_namespace_jobs(seeds, quick):
+def _known_namespace_jobs(seeds, quick, rot=0):
     """AddUnknownChild: for every distinct parent element (namespace, name) of the corpus, at its first
     occurrence, a new first child with an unknown name in every namespace that a child of such an element
     (or the element itself) has anywhere in the corpus -- the namespaces its parser evidently branches on.
@@ -25,19 +25,25 @@ def _known_namespace_jobs(seeds, quick):
     known = {}
     roots = {}
     universe = set()
+    kinds = {}       # parent kind -> child kinds (namespace, name) seen under it anywhere in the corpus
+    positions = []   # (seed, path, parent kind, own kind, has character data) of every non-root element
 
-    def walk(e, si, path):
+    def walk(e, si, path, parent_sig=None):
         sig = (e.namespaceURI or "", e.localName)
         first.setdefault(sig, (si, path))
         k = known.setdefault(sig, set())
         k.add(e.namespaceURI or "")
         universe.add(e.namespaceURI or "")
+        kids = [c for c in e.childNodes if c.nodeType == 1]
+        if parent_sig is not None:
+            has_text = not kids and any(c.nodeType in (3, 4) and c.data.strip() for c in e.childNodes)
+            positions.append((si, path, parent_sig, sig, has_text))
         n = 0
-        for c in e.childNodes:
-            if c.nodeType == 1:
-                n += 1
-                k.add(c.namespaceURI or "")
-                walk(c, si, path + [n])
+        for c in kids:
+            n += 1
+            k.add(c.namespaceURI or "")
+            kinds.setdefault(sig, set()).add((c.namespaceURI or "", c.localName))
+            walk(c, si, path + [n], sig)
 
     for si, sd in enumerate(seeds):
         try:
@@ -58,7 +64,30 @@ def _known_namespace_jobs(seeds, quick):
             for ns in sorted(universe - known[sig]):
                 jobs.append({"k": "mut", "id": f"u{len(jobs)}", "seed": si, "off": 0, "anchor": 0, "client": True, "deep": False,
                              "steps": [{"op": "AddUnknownChild", "abs": True, "p": [], "ns": ns}]})
-    return jobs, {"parent_signatures": len(first), "namespaces": len(universe), "root_signatures": len(roots)}
+    nu = len(jobs)
+    # AddKnownSibling: next to every non-root element of every seed a sibling of ANOTHER kind that occurs under the
+    # same kind of parent somewhere in the corpus: after it and empty / after it with its text / before it and empty.
+    # Thorough: every other kind, all three variants; quick: 2 kinds per position (rotating with VERIF_SEED), the
+    # with-text variant for the first of them, the before variant for every third.
+    total_kinds = 0
+    for pi, (si, path, psig, sig, has_text) in enumerate(positions):
+        others = sorted(kinds.get(psig, set()) - {sig})
+        total_kinds += len(others)
+        if quick:
+            others = [others[(pi + rot + k * 7) % len(others)] for k in range(min(2, len(others)))] if others else []
+            others = sorted(set(others))
+        for ki, (ns, name) in enumerate(others):
+            variants = [(True, False)]                       # after the element, empty
+            if has_text and (not quick or ki == 0):
+                variants.append((True, True))                # after it, carrying its character data
+            if not quick or (pi + ki + rot) % 3 == 0:
+                variants.append((False, False))              # before it, empty
+            for after, txt in variants:
+                jobs.append({"k": "mut", "id": f"u{len(jobs)}", "seed": si, "off": 0, "anchor": 0, "client": True, "deep": False,
+                             "steps": [{"op": "AddKnownSibling", "abs": True, "p": path, "ns": ns, "name": name, "after": after, "txt": txt}]})
+    return jobs, {"parent_signatures": len(first), "namespaces": len(universe), "root_signatures": len(roots),
+                  "add_unknown_child_documents": nu, "add_known_sibling_documents": len(jobs) - nu,
+                  "sibling_positions": len(positions), "position_x_other_kinds": total_kinds}
 
 
 def _jobs(chk, seeds, plans2, plans3, quick):
@@ -105,7 +134,9 @@ def run(chk, replay=None):
 
     with concurrent.futures.ThreadPoolExecutor(max_workers=1) as bg:
         # 1. design level: every mutation sequence up to MaxMut keeps the tree well-formed
-        mc_f = bg.submit(vf.tlc_mc, "XmlMutate.tla", "XmlMutate.cfg", cc.TLC_WORKERS)
+        # (quick: all sequences of two moves, XmlMutate.cfg; thorough: of three, XmlMutate3.cfg)
+        mc_cfg = "XmlMutate.cfg" if quick else "XmlMutate3.cfg"
+        mc_f = bg.submit(vf.tlc_mc, "XmlMutate.tla", mc_cfg, cc.TLC_WORKERS)
         # 2. plans: all single mutations, all pairs, triples (all of them in the thorough tier)
         if replay:
             jobs = [j for j in vf.read_ndjson(replay) if "k" in j]
@@ -121,7 +152,7 @@ def run(chk, replay=None):
             p3 = [p for p in p3 if len(p["steps"]) == 3]
             gen = {"single": st1, "pairs": st2, "triples": st3}
             jobs = _jobs(chk, seeds, p2, p3, quick)
-            ujobs, ustats = _known_namespace_jobs(seeds, quick)
+            ujobs, ustats = _known_namespace_jobs(seeds, quick, chk.seed % 48)
             jobs += ujobs
             chk.cov["known_namespace_children"] = dict(ustats, documents=len(ujobs))
         chk.cov["generation"] = gen
@@ -130,7 +161,7 @@ def run(chk, replay=None):
         # a parser that does not return within the alarm ends the process; the hang is confirmed on the
         # document alone with three times the budget before it is reported (C02:hang:<class>:<seed>:<plan>)
         paths, lines, crashes = cc.run_jobs(chk, "c02", jobs, seeds_path, alarm=10 if quick else 30)
-        chk.mc(mc_f.result(), "XmlMutate.cfg")
+        chk.mc(mc_f.result(), mc_cfg)
 
     # 4. trace validation: the monitor of XmlMutateTrace evaluates the C02 predicates per document
     s = cc.validate_traces("XmlMutateTrace.tla", "XmlMutateTrace.cfg", paths, "XmlMutateTrace")
@@ -146,7 +177,7 @@ def run(chk, replay=None):
 
     posl = [o for o in lines if o.get("e") == "Positions" and not o.get("from")]
     onestep = [o for o in docs if o["e"] == "Doc" and len(o.get("steps", [])) == 1 and o["steps"][0].get("abs")
-               and o["steps"][0]["op"] != "AddUnknownChild"]
+               and o["steps"][0]["op"] not in ("AddUnknownChild", "AddKnownSibling")]
     muts = [o for o in docs if o["e"] == "Doc"]
     nontrivial = {o["h"] for o in muts if o.get("wfdoc") and any(o.get("applied", [])) and o.get("runs", 0) > 0 and "h" in o}
     ops = {}
